@@ -68,11 +68,16 @@ pub struct RefSearch {
     /// quiescence nodes spent since the last reset, and the budget for them (bounds the time of one reference computation)
     pub q_nodes_total: u64,
     pub q_total_budget: u64,
+    /// stalemate / checkmate positions met as interior nodes (remaining depth >= 1) since the last reset
+    pub stalemates_inside: u64,
+    pub mates_inside: u64,
+    /// coverage probe only: score a stalemated side as lost, to see whether a value rests on the stalemate rule
+    pub stalemate_as_loss: bool,
 }
 
 impl RefSearch {
     pub fn new(leaf_budget: u64, q_node_budget: u64) -> RefSearch {
-        RefSearch { q: Searcher::new(), memo: HashMap::new(), qmemo: HashMap::new(), leaves: 0, leaf_budget, q_node_budget, max_q_nodes: 0, q_nodes_total: 0, q_total_budget: leaf_budget.saturating_mul(25) }
+        RefSearch { q: Searcher::new(), memo: HashMap::new(), qmemo: HashMap::new(), leaves: 0, leaf_budget, q_node_budget, max_q_nodes: 0, q_nodes_total: 0, q_total_budget: leaf_budget.saturating_mul(25), stalemates_inside: 0, mates_inside: 0, stalemate_as_loss: false }
     }
 
     pub fn reset(&mut self) {
@@ -80,6 +85,14 @@ impl RefSearch {
         self.qmemo.clear();
         self.leaves = 0;
         self.q_nodes_total = 0;
+        self.stalemates_inside = 0;
+        self.mates_inside = 0;
+    }
+
+    /// forget interior values but keep the leaf values (used to re-evaluate a tree under the
+    /// stalemate_as_loss probe)
+    pub fn clear_interior(&mut self) {
+        self.memo.clear();
     }
 
     /// Full-window quiescence value of `p` by the engine's own quiescence search.
@@ -132,9 +145,15 @@ impl RefSearch {
         let legal = p.legal_moves();
         let v = if legal.is_empty() {
             if p.in_check() {
+                self.mates_inside += 1;
                 Val::Loss
             } else {
-                Val::Num(0)
+                self.stalemates_inside += 1;
+                if self.stalemate_as_loss {
+                    Val::Loss
+                } else {
+                    Val::Num(0)
+                }
             }
         } else {
             let mut best = Val::Loss;
